@@ -37,6 +37,34 @@ func (cr *coreRun) finalChecks() {
 		}
 		return ""
 	}
+	if cr.body.NoMonitor {
+		// finding F8 without the monitor: a request that was never answered while its connection
+		// received a reply under an id it did not send (or a second reply to another of its requests)
+		for _, r := range cr.h.order {
+			if !r.Sent || r.lost || len(r.Replies) > 0 || r.excused {
+				continue
+			}
+			for i := range cr.h.stray {
+				sr := &cr.h.stray[i]
+				if sr.Conn == r.Client && sr.Ev > r.InvEv && !sr.Recycled {
+					sr.Recycled, r.excused = true, true
+					break
+				}
+			}
+			if r.excused {
+				continue
+			}
+			for _, o := range cr.h.order {
+				if o != r && o.Client == r.Client && len(o.Replies) == 2 && o.Replies[1].Ev > r.InvEv && o.Replies[1].Result != protocol.RESULT_EXPRIED && !o.excused {
+					// the second reply of that request is this one's
+					o.Replies = o.Replies[:1]
+					r.excused = true
+					cr.h.stray = append(cr.h.stray, Reply{Conn: r.Client, Recycled: true, Result: 0, StrayRid: o.Id})
+					break
+				}
+			}
+		}
+	}
 	for _, r := range cr.h.order {
 		if !r.Sent || r.lost {
 			continue
